@@ -1,7 +1,8 @@
 import TmVerif.Model.Proto
 import TmVerif.Model.GuardPairs
+import TmVerif.Model.TableWidth
 namespace TmVerif.DriverC17
-open TmVerif.Proto TmVerif.Guards TmVerif.Facts
+open TmVerif.Proto TmVerif.Guards TmVerif.Facts TmVerif.TableWidth
 
 /-- Digest of the use sites this driver was compiled with. -/
 def compiledDigest : String :=
@@ -21,6 +22,7 @@ only re-evaluates it (compiled) so that the harness can tie its run to it:
   listed, identifiers with two declaration sites that can be generated together, grouping and table checks;
 * `facts <digest> <defs> <atoms> <names>` (tools/factgen run by the harness on the tree under test) → `match` when
   these are the facts this driver was compiled with;
+* `width <ints>` / `bits <int>` → the mirror of gen.bitsPerElement / gen.bits (Model/TableWidth.lean);
 * `build <kind> <name> <files> <result>` (one generated package of the sweep) → the result token: there is no
   model of `go build` (DESIGN.md §5), failures are reported by the harness with the grammar. -/
 def eval : List String → Option String
@@ -28,7 +30,7 @@ def eval : List String → Option String
   | ["guards"] =>
     let (_, _, _, _, bad) := counts
     let dups := (c17Groups.filter (fun g => !noDupGo (g.defs.map defSiteGuardRaw))).length
-    some s!"inconsistent={bad} duplicates={dups} wellformed={b01 groupsWellFormed} tables={b01 tablesOk}"
+    some s!"inconsistent={bad} duplicates={dups} unusedlabels={b01 (!labelsUsed)} wellformed={b01 groupsWellFormed} tables={b01 tablesOk}"
   | ["facts", digest, defs, atoms, names] => do
     let d ← parseNat? defs
     let a ← parseNat? atoms
@@ -38,6 +40,14 @@ def eval : List String → Option String
     else
       some s!"differ: compiled with digest={compiledDigest} defs={c17DefSigs.length} atoms={c17Atoms.length} names={c17Names.length}"
   | ["build", _, _, _, res] => some res
+  | ["width", arr] => do
+    let a ← parseInts arr
+    some (toString (bitsPerElement a))
+  | ["bits", i] => do
+    let a ← parseInts i
+    match a with
+    | [x] => some (toString (bits x))
+    | _ => none
   | _ => none
 
 /-- `judge <go answer> :: <case>`: a guard inconsistency that is not listed is a failing input of the fragment
@@ -52,9 +62,25 @@ def handle (args : List String) : Option String :=
       if !openUses.isEmpty then
         some ("violates: uses of template-declared identifiers whose guards do not imply the guards of the declaration: "
           ++ " ".intercalate openUses)
+      else if !labelsUsed then
+        some "violates: a label is generated under a guard under which no goto to it is (Go rejects unused labels)"
       else if !dups.isEmpty then
         some ("violates: identifiers with two declaration sites that can be generated together: " ++ " ".intercalate dups)
       else some "holds"
+    | _ :: ["width", arr] =>
+      -- the implementation's width must hold every element (all of them int32 values)
+      match parseInts arr, rest.head? with
+      | some a, some w =>
+        if !allInt32 a then some "holds"
+        else if widthOk (w.toNat?.getD 0) a then some "holds"
+        else some s!"violates: int{w} does not hold every element of the table (the generated array literal overflows)"
+      | _, _ => none
+    | _ :: ["bits", i] =>
+      match parseInts i, rest.head? with
+      | some [x], some w =>
+        if !fitsSigned 32 x || fitsSigned (w.toNat?.getD 0) x then some "holds"
+        else some s!"violates: {x} is not a value of int{w}"
+      | _, _ => none
     | _ :: c => (eval c).map (fun _ => "holds")
     | [] => none
   | _ => eval args
